@@ -427,6 +427,7 @@ pub fn run_c18_b(ctx: &Ctx) -> Outcome {
         if lwt.is_confirmed_lwt() {
             o.class("statement-marked-LWT-by-the-node");
         }
+        let sel = Arc::new(session.prepare(T_SEL).await.unwrap());
         let tasks = 16usize;
         let per = ctx.vol(150, 5000) as usize;
         let explicit: Arc<Mutex<HashMap<u64, i64>>> = Arc::new(Mutex::new(HashMap::new()));
@@ -447,7 +448,7 @@ pub fn run_c18_b(ctx: &Ctx) -> Outcome {
             })
         };
         for t in 0..tasks {
-            let (s, ins, lwt, explicit) = (session.clone(), ins.clone(), lwt.clone(), explicit.clone());
+            let (s, ins, lwt, sel, explicit) = (session.clone(), ins.clone(), lwt.clone(), sel.clone(), explicit.clone());
             let mut rng = Rng::new(ctx.seed, 1800 + t as u64);
             hs.push(tokio::spawn(async move {
                 for _ in 0..per {
@@ -457,7 +458,24 @@ pub fn run_c18_b(ctx: &Ctx) -> Outcome {
                     if let Some(t) = ts {
                         explicit.lock().unwrap().insert(op, t);
                     }
-                    let _ = match rng.below(6) {
+                    let _ = match rng.below(7) {
+                        // a paged SELECT read to its end (two pages): every page request carries the timestamp
+                        6 => {
+                            use futures::StreamExt;
+                            let mut p = (*sel).clone();
+                            p.set_timestamp(ts);
+                            p.set_page_size(1);
+                            if let Ok(pager) = s.execute_iter(p, (op as i64,)).await {
+                                if let Ok(mut rows) = pager.rows_stream::<(i32,)>() {
+                                    while let Some(r) = rows.next().await {
+                                        if r.is_err() {
+                                            break;
+                                        }
+                                    }
+                                }
+                            }
+                            Ok(())
+                        }
                         0 => {
                             let mut st = Statement::new(T_INS);
                             st.set_timestamp(ts);
@@ -537,7 +555,8 @@ pub fn run_c18_b(ctx: &Ctx) -> Outcome {
         }
         generated.sort();
         for w in generated.windows(2) {
-            if w[0].0 == w[1].0 {
+            // (two page requests of ONE paged read are one statement execution: not judged against each other)
+            if w[0].0 == w[1].0 && w[0].1 != w[1].1 {
                 o.violation("c18b:duplicate-generated-timestamp", format!("ops {} and {} were sent with the same generated timestamp {}", w[0].1, w[1].1, w[0].0), json!({"part": "b"}));
                 break;
             }
